@@ -349,3 +349,39 @@ func resolveInD(root *ssa.Function, v ssa.Value, d int) []ssa.Value {
 	}
 	return out
 }
+
+// ForwardFieldLoad: for a load of a struct field, the value of the last store to that same field (same access path) that
+// dominates the load in the same function, provided no other store to the field lies between them on a dominating chain.
+// Used where a value is published into a field and read back in the same critical section (x.f = v; use(x.f)).
+func ForwardFieldLoad(v ssa.Value) ssa.Value {
+	ld, ok := Unwrap(v).(*ssa.UnOp)
+	if !ok || ld.Op != token.MUL {
+		return v
+	}
+	fa, ok := ld.X.(*ssa.FieldAddr)
+	if !ok {
+		return v
+	}
+	path := AccessPath(fa)
+	var best *ssa.Store
+	InstrsOwn(ld.Parent(), func(in ssa.Instruction) {
+		st, isSt := in.(*ssa.Store)
+		if !isSt {
+			return
+		}
+		sfa, isFA := st.Addr.(*ssa.FieldAddr)
+		if !isFA || sfa.Field != fa.Field || AccessPath(sfa) != path {
+			return
+		}
+		if !Dominates(st, ld) {
+			return
+		}
+		if best == nil || Dominates(best, st) {
+			best = st
+		}
+	})
+	if best == nil {
+		return v
+	}
+	return best.Val
+}
